@@ -60,6 +60,7 @@ def mulSmallOf (F : FieldImpl) : Nat → Nat → Nat :=
   if F.name == "f64" then Gen.F64.mul_small else fun a _ => a
 
 def handleF (F : FieldImpl) : List String → String
+  | ["soak", _, _, _] => "-"   -- oracle-only volume run inside the harness; not modelled line by line
   | ["bin", op, a, b] =>
     match a.toNat?, b.toNat? with
     | some a, some b => binop F op (F.new a) (F.new b)
